@@ -506,6 +506,13 @@ impl State {
         }
     }
 
+    /// a state whose dictionary is the given one (child processes of `envchild`)
+    pub fn with_dict(d: Arc<Dictionary>) -> State {
+        let mut s = State::new();
+        s.dict = d;
+        s
+    }
+
     fn dict_mut(&mut self) -> &mut Dictionary {
         Arc::make_mut(&mut self.dict)
     }
@@ -1317,6 +1324,28 @@ impl State {
                     }
                 }
                 first
+            }
+            ["envchild", name, value, h] => {
+                // the frame decoded and displayed by a FRESH process in whose environment `name=value` was set (and the other
+                // locale variables removed) before anything of the library ran - what a library reads from the environment
+                // once, at first use, is read there
+                let exe = match std::env::current_exe() {
+                    Ok(e) => e,
+                    Err(_) => return "bad-op".into(),
+                };
+                let mut c = std::process::Command::new(exe);
+                c.arg("envdec").arg(h);
+                for other in ["LC_ALL", "LC_CTYPE", "LANG", "LC_MESSAGES", "LANGUAGE", "COLUMNS", "LINES", "NO_COLOR", "TERM"] {
+                    c.env_remove(other);
+                }
+                if *value != "-" {
+                    c.env(name, value);
+                }
+                match c.output() {
+                    Ok(o) if o.status.success() => String::from_utf8_lossy(&o.stdout).trim().to_string(),
+                    Ok(_) => "abort".into(),
+                    Err(_) => "bad-op".into(),
+                }
             }
             ["env", name, value] => {
                 // an environment variable of this process is set (`-`: removed): terminal width, locale - nothing the
